@@ -572,6 +572,21 @@ func buildIllegal(kind string, sub int, legal bool) []*sg.Mod {
 		if legal {
 			st = `default "dv";`
 		}
+		switch v(3) {
+		case 1:
+			// the empty string is a value like any other: it is not the target's value (which here reads like the keyword)
+			target.Default = sp("default")
+			st = `default "";`
+			if legal {
+				st = `default "default";`
+			}
+		case 2:
+			target.Units = "units"
+			st = `units "";`
+			if legal {
+				st = `units "units";`
+			}
+		}
 		dev.Deviations = []*sg.Deviation{{Target: tpath + "/m0:t", Deviates: []sg.Deviate{{Kind: "delete", Stmts: []string{st}}}}}
 		mods = append(mods, dev)
 	case "deviate-unknown-target-in-operation":
